@@ -1176,7 +1176,8 @@ class BaseGateway:
             log(self._geterrortext(exc))
         log("finishing receiving thread")
         # wake up and terminate any execution waiting to receive
-        self._channelfactory._finished_receiving()
+        with self._receivelock:
+            self._channelfactory._finished_receiving()
         log("terminating execution")
         self._terminate_execution()
         log("closing read")
